@@ -56,10 +56,11 @@ fn origins(cfg: u64) -> Vec<&'static str> {
 type Labels = Vec<Vec<u8>>;
 
 fn labels_of(name: &str, z: &[String]) -> Labels {
+    let name = name.trim_end_matches('.');
     if name == "-" || name.is_empty() {
         return vec![];
     }
-    name.trim_end_matches('.')
+    name
         .split('.')
         .map(|l| {
             if let Some(k) = l.strip_prefix('@') {
@@ -656,9 +657,26 @@ fn gen_query(rng: &mut Rng, cfg: u64) -> String {
     format!("Q{name}/{ty}")
 }
 
+/// a query for a published record: its name under one of the origins, its type (mostly)
+fn gen_query_for(rng: &mut Rng, cfg: u64, published: &[(String, u16)]) -> String {
+    let (name, ty) = rng.pick(published).clone();
+    let o = origins(cfg);
+    let origin = rng.pick(&o).trim_end_matches('.').to_string();
+    let name = if rng.chance(1, 6) { name.to_uppercase().replace('@', "^") } else { name };
+    let full = match (name.as_str(), origin.as_str()) {
+        ("-", "") => "-".to_string(),
+        ("-", o) => o.to_string(),
+        (n, "") => n.to_string(),
+        (n, o) => format!("{n}.{o}"),
+    };
+    let ty = if rng.chance(1, 6) { *rng.pick(&[16u16, 1, 28, 5, 2, 6, 255]) } else { ty };
+    format!("Q{full}/{ty}")
+}
+
 fn generate(rng: &mut Rng, _i: u64, _n: u64) -> String {
     let cfg = *rng.pick(&[0u64, 0, 0, 1, 2, 3]);
     let mut out = vec![format!("o{cfg}"), format!("s{}", rng.below(1000))];
+    let mut published: Vec<(String, u16)> = Vec::new();
     let nops = rng.range(2, 7);
     for _ in 0..nops {
         match rng.below(10) {
@@ -669,6 +687,10 @@ fn generate(rng: &mut Rng, _i: u64, _n: u64) -> String {
                 let ts = rng.range(1, 4);
                 let nrec = rng.range(0, 4);
                 let recs: Vec<String> = (0..nrec).map(|_| gen_rec(rng, signer)).collect();
+                for r in &recs {
+                    let p: Vec<&str> = r.split('/').collect();
+                    published.push((p[0].to_string(), norm_type(p[1].parse().unwrap())));
+                }
                 let flags = match rng.below(24) {
                     0 => "t",
                     1 => "m",
@@ -687,12 +709,23 @@ fn generate(rng: &mut Rng, _i: u64, _n: u64) -> String {
                 }
                 out.push(t);
             }
+            5 | 6 if !published.is_empty() => out.push(gen_query_for(rng, cfg, &published)),
             _ => out.push(gen_query(rng, cfg)),
         }
     }
-    // afterwards query every published record name under the first origin, and a few others
-    for _ in 0..rng.range(2, 5) {
-        out.push(gen_query(rng, cfg));
+    // afterwards: query the published names (every record when there are few) and some others
+    let nq = rng.range(3, 6);
+    for _ in 0..nq {
+        if !published.is_empty() && rng.chance(3, 4) {
+            out.push(gen_query_for(rng, cfg, &published));
+        } else {
+            out.push(gen_query(rng, cfg));
+        }
+    }
+    for k in 0..NKEYS {
+        if rng.chance(1, 3) {
+            out.push(format!("G{k}"));
+        }
     }
     out.join(" ")
 }
